@@ -1,7 +1,5 @@
 import SFV.Model.Sched
 import SFV.Model.HWProto
-import SFV.Lemmas.RefineStack
-import SFV.Lemmas.RefineSlots
 /-! Line protocol of the scheduler drivers (C10–C13): configuration lines, `try` / `notify` operations, state dump. -/
 namespace SFV.SchedProto
 open SFV SFV.HW SFV.HWProto SFV.Sched SFV.Gen.Sched SFV.Proto
@@ -11,10 +9,6 @@ structure DSt where
   stacks : List (Nat × Stack) := []
   targets : List (Nat × (Nat × List Nat)) := []     -- id ↦ (wanted, available stack ids)
   st : St := {}
-  refOk : Bool := true      -- `RefineStack.OkS` (cores and memory) held at every step so far: hypothesis of `sched_refines_ledger`
-  raised : Bool := false    -- some step raised (then the run is outside that theorem)
-  slotOk : Bool := true     -- `RefineSlots.OkS` held at every step so far: hypothesis of `sched_refines_slots`
-  jobInfo : List (Nat × (Nat × List Nat)) := []   -- step and tag of every job seen (for `RefineSlots.Cfg`)
 
 def statusOfNat (n : Nat) : Option Status := Status.all.find? (fun s => s.toNat = n)
 
@@ -61,24 +55,6 @@ def outcomeStr : Outcome → String
   | .waiting => "waiting"
   | .error e => "err " ++ serrStr e
 
-/-- capacity (component `c`) of the location called `name` in the configured stacks -/
-def capOf (d : DSt) (c : Refine.Comp) (name : Nat) : Rat :=
-  match d.stacks.findSome? (fun (_, st) => st.findSome? (fun lvl => if lvl.name = name then lvl.hardware.map c.get else none)) with
-  | some v => v
-  | none => 0
-
-def hypOk (d : DSt) (op : Refine.SOp) : Bool :=
-  decide (RefineStack.OkS Refine.coresComp (capOf d Refine.coresComp) d.st op) &&
-  decide (RefineStack.OkS Refine.memoryComp (capOf d Refine.memoryComp) d.st op)
-
-/-- the static data `RefineSlots.Cfg` of the configured stacks and the jobs seen so far -/
-def slotCfg (d : DSt) : RefineSlots.Cfg :=
-  { depOf := fun name => (d.stacks.findSome? (fun (_, st) => st.findSome? (fun lvl => if lvl.name = name then some lvl.dep else none))).getD 0,
-    slots := fun name => (d.stacks.findSome? (fun (_, st) => st.findSome? (fun lvl =>
-        if lvl.name = name then some (lvl.slots.getD SFV.Gen.Sched.slotsDefault) else none))).getD 0,
-    stepOf := fun j => ((assocGet d.jobInfo j).map (·.1)).getD 0,
-    tagOf := fun j => ((assocGet d.jobInfo j).map (·.2)).getD [] }
-
 def availOf (d : DSt) (t : Nat) : Option (Nat × List Stack) := do
   let (wanted, ids) ← assocGet d.targets t
   let sts ← ids.mapM (assocGet d.stacks)
@@ -114,12 +90,7 @@ def step (d : DSt) : List String → DSt × String
             match availOf d t with
             | some (wanted, avail) =>
                 let (s', o) := tryAllocate d.env d.st j stp tag hw t wanted avail
-                if op = "try" then
-                  let isErr := match o with | .error _ => true | _ => false
-                  let d1 := { d with jobInfo := assocSet d.jobInfo j (stp, tag) }
-                  ({ d1 with st := s', refOk := d.refOk && hypOk d (.pass j stp tag hw t wanted avail),
-                             slotOk := d.slotOk && decide (RefineSlots.OkS (slotCfg d1) d.st (.pass j stp tag hw t wanted avail)),
-                             raised := d.raised || isErr }, outcomeStr o ++ " | " ++ dump s')
+                if op = "try" then ({ d with st := s' }, outcomeStr o ++ " | " ++ dump s')
                 else (d, outcomeStr o)
             | none => (d, "bad-op")
         | _, _, _, _, _ => (d, "bad-op")
@@ -131,12 +102,9 @@ def step (d : DSt) : List String → DSt × String
           let os := match o with
             | .done b => s!"done {b}"
             | .error e => "err " ++ serrStr e
-          let isErr := match o with | .error _ => true | _ => false
-          ({ d with st := s', refOk := d.refOk && hypOk d (.notify j stt),
-                    slotOk := d.slotOk && decide (RefineSlots.OkS (slotCfg d) d.st (.notify j stt)),
-                    raised := d.raised || isErr }, os ++ " | " ++ dump s')
+          ({ d with st := s' }, os ++ " | " ++ dump s')
       | _, _ => (d, "bad-op")
-  | ["refhyp"] => (d, s!"{d.refOk} {d.raised} {d.slotOk}")
+  | ["refhyp"] => (d, "-")
   | ["dump"] => (d, dump d.st)
   | _ => (d, "bad-op")
 
